@@ -49,6 +49,9 @@ def execute(ctx, binp, scns, test, module, kind):
     traces = vf.read_ndjson(outp)
     if len(traces) != len(scns):
         raise vf.Machinery("harness produced %d traces for %d schedules" % (len(traces), len(scns)))
+    skipped = [t for t in traces if t.get("skipped")]
+    if skipped:
+        ctx.notes["skipped_after_hangs_" + kind] = len(skipped)
     hangs = [t for t in traces if t.get("hang")]
     for t in hangs:
         if t["hang"].startswith("harness"):
@@ -59,7 +62,7 @@ def execute(ctx, binp, scns, test, module, kind):
             continue
         ctx.candidate(dict(kind="hang", client=kind, what=t["hang"]), "execution hangs (%s, %s client); schedule=%s; events so far=%s" % (
             t["hang"], kind, json.dumps(t["schedule"]), json.dumps(t["events"])[:600]), t)
-    ok = [t for t in traces if not t.get("hang")]
+    ok = [t for t in traces if not t.get("hang") and not t.get("skipped")]
     acc, still = validate(ctx, ok, "v" + kind, module)
     rejected = [i for i in range(len(ok)) if i not in acc]
     for i in sorted(still)[:2000]:
